@@ -812,6 +812,8 @@ class Engine:
         """Struct literal or enum variant constructor."""
         base = strip_generics(path)
         parts = base.split("::")
+        if parts[-1] in ("Relaxed", "SeqCst", "Acquire", "Release", "AcqRel") and not fields:
+            return Agg([], 0, "AtomicOrdering")
         if len(parts) >= 2 and (parts[-2] in self.p.enums or parts[-2] in ("Option", "Result", "Ordering", "ControlFlow", "Cow", "Bound", "SeekFrom")):
             en = parts[-2]
             if parts[-1] in self.p.enums.get(en, ()) or en not in self.p.enums:
@@ -1190,7 +1192,7 @@ def _struct(self, struct_name_, **fields):
     """Struct value with fields placed by the declaration order read from the crate source."""
     order = self.p.structs[struct_name_]
     assert set(fields) == set(order), (struct_name_, order, list(fields))
-    return Agg([fields[f] for f in order], None, struct_name_)
+    return Agg([fields[f] for f in order], None, struct_name_.split(":")[-1])
 
 
 def _field(self, agg, struct, fname):
